@@ -418,6 +418,12 @@ fn pair_cases(w: &World, with_perts: bool) -> Vec<Case> {
                     u: href(None, j),
                 });
             }
+            // same or lower height, but a later time (re-signed): only the height rule refuses these
+            for j in 0..=i {
+                for p in [Pert::TimePlus1ns, Pert::NowPlus5s] {
+                    out.push(Case::Pair { t: href(None, i), u: HRef { fork: None, idx: j, pert: Some((p, i)), impostor: false } });
+                }
+            }
         }
     }
     out
@@ -502,9 +508,7 @@ fn main() {
         let scs = scenarios(thorough);
         let jobs: Vec<(usize, Scenario)> = scs.iter().cloned().enumerate().collect();
         let mut rep = par_cases(jobs, |(k, sc), rep| {
-            let t0 = Instant::now();
             let w = build_world(&keys, &sc);
-            let t1 = t0.elapsed();
             // perturbations and lists on a covering subset of the worlds in quick, on all in thorough
             let with_perts = thorough || sc.weak == 0 && (sc.mask == 7 || sc.mask == 1 || sc.mask == 0);
             for c in pair_cases(&w, with_perts) {
@@ -517,9 +521,6 @@ fn main() {
                 }
             }
             let _ = &w.plan;
-            if std::env::var("LV_TIMING").is_ok() {
-                eprintln!("world {k} build {:?} total {:?} thread {:?}", t1, t0.elapsed(), std::thread::current().id());
-            }
         });
         rep.extra("worlds", json!(scs.len()));
         rep
@@ -528,7 +529,7 @@ fn main() {
         &ctx,
         rep,
         Spec {
-            rule: "worlds: chain of N headers (quick 8, thorough 12), validator set A={0,1,2} with powers from {1/1/1, 100/100/100, 101/100/99, 98/101/101, 1/2/3 (+99/100/101, 3/2/1, 5/1/1 thorough)}, rotating at two heights to B = (every subset of A, 8 masks) + fresh validators (4 x power 10) and back to A, the lowest kept validator voting commit / nil / absent during B; a fork twin chain from every height. PAIRS (verify and verify_adjacent on each): every (i,j) of the chain incl. j<=i; every (chain i, fork f header j) in both roles; impostor-signed untrusted headers; and, re-signed so that they validate, the untrusted header with another chain id, time = trusted / -1ns / +1ns / now+5s / now+15s / now+1h, flipped parent hash, another validator set, and the trusted header with flipped next_validators_hash (with and without re-parenting the untrusted one). LISTS (verify_range and verify_adjacent_range on each): for every trusted index a: the empty list, every contiguous sub-list s..=e, and each of them with one element removed / duplicated / swapped with the next / replaced by its fork twin / tail replaced by the consistent fork. distinct = (world, case, function); non-trivial = untrusted height above the trusted one, lists of >= 2 elements",
+            rule: "worlds: chain of N headers (quick 8, thorough 12), validator set A={0,1,2} with powers from {1/1/1, 100/100/100, 101/100/99, 98/101/101, 1/2/3 (+99/100/101, 3/2/1, 5/1/1 thorough)}, rotating at two heights to B = (every subset of A, 8 masks) + fresh validators (4 x power 10) and back to A, the lowest kept validator voting commit / nil / absent during B; a fork twin chain from every height. PAIRS (verify and verify_adjacent on each): every (i,j) of the chain incl. j<=i; every (chain i, fork f header j) in both roles; impostor-signed untrusted headers; and, re-signed so that they validate, the untrusted header with another chain id, time = trusted / -1ns / +1ns / now+5s / now+15s / now+1h, flipped parent hash, another validator set, headers of the same or a lower height with a later time, and the trusted header with flipped next_validators_hash (with and without re-parenting the untrusted one). LISTS (verify_range and verify_adjacent_range on each): for every trusted index a: the empty list, every contiguous sub-list s..=e, and each of them with one element removed / duplicated / swapped with the next / replaced by its fork twin / tail replaced by the consistent fork. distinct = (world, case, function); non-trivial = untrusted height above the trusted one, lists of >= 2 elements",
             assumptions: &[
                 "VerifiedExtendedHeaders::try_from (lumina-node) is `head.verify_adjacent_range(&headers[1..])`; lv-types does not link lumina-node, so it is covered through verify_adjacent_range with the same lists (the node-side store checks exercise try_from itself)",
                 "Time::now() cannot be seamed: clock-relative headers are built and verified within 2 s, 5 s away from the 10 s drift edge on both sides; the exact edge instant is not checked; all other header times lie in 2024",
